@@ -10,5 +10,5 @@ PROP = {
         "PARTIAL (termination): the model functions are total by construction; that the Go loops terminate on the same inputs is observed under a 10 s timeout in a worker process (a fatal error such as a stack overflow is observed as a violation), not proved",
     ],
     "level_text": "For every modelled decoder and string-argument API the theorem `f args <> Panic` holds for ALL token lists / Maps / strings, and the Map decoder fails exactly when the token stream ends before the root element is complete, returning no Map; the models are tied to /repo by the correspondence on malformed inputs, where a panic of the implementation is a result class of its own; the worker-process oracle additionally covers the entry points that are not modelled (gob, bulk handlers).",
-    "level_note": "Trusted: Coq kernel; hand-written models validated by correspondence; encoding/xml, encoding/json, encoding/gob as environment. Termination is observed, not proved.",
+    "level_note": "50 theorems: every modelled function (queries, updates, leaf walkers, key search, both decoders over all token lists, encoders on any value, JSON scanner / readers / handlers / file loops, x2j-wrapper walkers, argument parsers); sequence-codec output encodable under seq_keys_ok (default keys: always), refuted for a key prefix that is an XML name start (recorded finding seq-keyprefix-name-collision). Trusted: Coq kernel; hand-written models validated by correspondence; encoding/xml, encoding/json, encoding/gob as environment. Termination is observed, not proved.",
 }
